@@ -251,7 +251,14 @@ def run(facts, rep, tier):
                         ls = last_seek_before(reads[0])
                         okrw = ls is not None and is_rewind(ls)
                         inst_rw = f'read() mode {mode}: the stream is rewound to offset 0 before the data is read'
-                        if ls is None: rep.inconclusive('FI.4', inst_rw, rd.shortloc(), 'no positioning call (File::seek / fseek / rewind) was found before the data is read: where the read starts is not followed')
+                        if ls is None:
+                            # nothing moved the stream: unless some call on it is unknown to this table, the read starts wherever an earlier read / seek left it
+                            ri_ = E.index(reads[0])
+                            NONPOS = ('fgetc', 'getc', 'feof', 'ferror', 'ftell', 'ftello', 'fread', 'fwrite', 'fflush', 'clearerr', 'fileno')
+                            unknown_calls = [e for e in E[:ri_] if e.kind == 'call' and not strip_targs(e.name).startswith(f'{F}::') and e.name not in NONPOS and any(isinstance(a_, Sym) and a_.name in ('m_file', 'field:this.m_file') for a_ in (e.args or []))]
+                            own = [e for e in E[:ri_] if e.kind == 'call' and strip_targs(e.name).startswith(f'{F}::') and strip_targs(e.name) not in (f'{F}::tell', f'{F}::size', f'{F}::read', f'{F}::isOpen')]
+                            if unknown_calls or own: rep.inconclusive('FI.4', inst_rw, rd.shortloc(), f'no positioning call (File::seek / fseek / rewind) was recognised before the data is read, but {(unknown_calls or own)[0].name}() is applied to the stream: where the read starts is not followed')
+                            else: rep.violation('FI.4', inst_rw, reads[0].site, 'nothing positions the stream before the data is read (size() restores the position it found): the read starts wherever an earlier read / seek left the stream, so after a partial read or a seek read() / readStr() return the wrong bytes', key='FI.4|rewind', fn=rd.name)
                         else: rep.check(okrw, 'FI.4', inst_rw, ls.site, f'the data is not read from offset 0: the last positioning before the read is {_pos(ls)}', key='FI.4|rewind', fn=rd.name)
                     if text:
                         iters = len(getcs)
